@@ -16,6 +16,7 @@ type GenOpts struct {
 	MemKind     string // force memory kind
 	MaxDrivers  int
 	RspStall    bool // a third of the drivers are slow requesters (RspStallPct 30-90)
+	NoLevels    bool // drivers sit directly on the memory
 }
 
 func pick[T any](rng *rand.Rand, xs ...T) T { return xs[rng.Intn(len(xs))] }
@@ -31,6 +32,9 @@ func RandomStackCfg(rng *rand.Rand, o GenOpts) StackCfg {
 	var shape []string
 	for {
 		shape = shapes[rng.Intn(len(shapes))]
+		if o.NoLevels {
+			shape = shapes[0]
+		}
 		hasWB, hasCache, hasROB := false, false, false
 		for _, k := range shape {
 			if k == "wb" {
